@@ -5,6 +5,7 @@ import (
 	"encoding/binary"
 	"encoding/json"
 	"fmt"
+	"math"
 
 	"berty.tech/go-ipfs-log/entry"
 	"berty.tech/go-orbit-db/iface"
@@ -45,6 +46,9 @@ func SaveSnapshot(ctx context.Context, b iface.Store) (cid.Cid, error) {
 	}
 
 	headerSize := len(header)
+	if headerSize > math.MaxUint16 {
+		return cid.Cid{}, fmt.Errorf("unable to save snapshot: header of %d bytes does not fit the 16-bit length prefix", headerSize)
+	}
 
 	size := make([]byte, 2)
 	binary.BigEndian.PutUint16(size, uint16(headerSize))
@@ -55,6 +59,10 @@ func SaveSnapshot(ctx context.Context, b iface.Store) (cid.Cid, error) {
 
 		if err != nil {
 			return cid.Cid{}, fmt.Errorf("unable to serialize entry as JSON: %w", err)
+		}
+
+		if len(entryJSON) > math.MaxUint16 {
+			return cid.Cid{}, fmt.Errorf("unable to save snapshot: entry of %d bytes does not fit the 16-bit length prefix", len(entryJSON))
 		}
 
 		size := make([]byte, 2)
